@@ -41,7 +41,6 @@
  "level": "U/k",
  "tier": "wip",
  "harness": "h_name_sound",
- "enforce": ["check_name"],
  "includes": ["e2fsck", "lib/support"],
  "sources": ["lib/ext2fs/dir_iterate.c"],
  "unwind": 257,
